@@ -421,7 +421,7 @@ server.max-read-idle = 10
 server.max-write-idle = 20
 server.max-connections = 64
 cgi.assign = (".sh" => "/bin/sh")
-index-file.names = ()
+%(parseopts)s
 """
 
 CGI = {
@@ -457,7 +457,12 @@ def req_bytes(meth, target, ver=1, hdrs=(), close=False, body=b""):
     if close:
         h.append(b"Connection: close")
     t = target if isinstance(target, bytes) else target.encode()
-    return meth.encode() + b" " + t + (b" HTTP/1.1" if ver else b" HTTP/1.0") + b"\r\n" + b"\r\n".join(h) + b"\r\n\r\n" + body
+    return meth.encode() + b" " + t + (b" HTTP/1.1" if ver else b" HTTP/1.0") + b"\r\n" + b"".join(x + b"\r\n" for x in h) + b"\r\n" + body
+
+
+def up_esc(b):
+    """burl_normalize() upper-cases the hex digits of percent escapes"""
+    return re.sub(rb"%[0-9a-fA-F]{2}", lambda m: m.group(0).upper(), b)
 
 
 def mline(status, meth, ver, fin, ka, flags, cl, blen):
@@ -534,6 +539,8 @@ def parse_multipart(body, ctype):
         return None
     b = m.group(1)
     parts = []
+    if body.startswith(b"--" + b):
+        body = b"\r\n" + body
     segs = body.split(b"\r\n--" + b)
     if segs[0] != b"" or not segs[-1].startswith(b"--"):
         return None
@@ -741,30 +748,37 @@ def e2e_cases(ctx, variant, rng):
     mix.append(static_req(2, close=True))
     cases.append(("pipeline-mix", mix, None, None))
     cases.append(("pipeline-mix-slow", mix, (2048, 0.3, 3000, 0.0005), None))
-    # 404 / directory redirects with CR LF tricks
+    # 404 / 400 / directory redirects with CR LF tricks
+    lenient = variant["ctrls"]            # url-ctrls-reject disabled: %0d%0a decode to "__" instead of a 400
     reqs = []
-    for t in ["/nope", "/nope%0d%0aX-Injected:%20y", "/f_1.bin%00", "/%0d%0a%0d%0aHTTP/1.1%20200%20OK%0d%0a%0d%0a", "/dir/none"]:
+    for t, ctl in [("/nope", 0), ("/nope%0d%0aX-Injected:%20y", 1), ("/f_1.bin%00", 1), ("/%0d%0a%0d%0aHTTP/1.1%20200%20OK%0d%0a%0d%0a", 1),
+                   ("/dir/none", 0), ("/nope%7f", 1), ("/f_1.bin?%0d%0aX:%20y", 1)]:
+        if ctl and not lenient:
+            for m in ("GET", "HEAD"):
+                cases.append(("ctl-400", [Req(req_bytes(m, t), 400, b"" if m == "HEAD" else "errpage", head=m == "HEAD", ka=0, kind="400-ctl",
+                                              model=[mline(400, m[0], 1, 1, 0, 64, None, 0)])], None, None))
+            continue
+        if "?" in t:
+            reqs.append(static_req(1))
+            reqs[-1].raw = req_bytes("GET", t)
+            continue
         reqs.append(Req(req_bytes("GET", t), 404, "errpage", kind="404", model=[mline(404, "G", 1, 1, 1, 64, None, 0)]))
         reqs.append(Req(req_bytes("HEAD", t), 404, b"", head=True, kind="404-head", model=[mline(404, "H", 1, 1, 1, 64, None, 0)]))
-    for d, t, qs in [("dir", "/dir", ""), ("dir", "/dir", "a=1&b=%0d%0aSet-Cookie:x"), ("d ir", "/d%20ir", ""), ("d\"q<r>", "/d%22q%3Cr%3E", "q"),
-                     ("dé", "/d%c3%a9", ""), ("d__X-Injected: y", "/d%0d%0aX-Injected:%20y", ""), ("d__X-Injected: y", "/d%0D%0aX-Injected:%20y", "z=%0a"),
-                     ("d%41", "/d%2541", ""), ("d;a=b&c", "/d;a=b&c", ""), ("dir", "/./x/../dir", ""), ("dir", "//dir", "")]:
-        for ver in (1, 0):
-            ka = 1 if ver else 0
-            reqs.append(Req(req_bytes("GET", t + ("?" + qs if qs else ""), ver), 301, b"", ver=ver, ka=ka, kind="301-dir",
-                            model=[mline(301, "G", ver, 1, ka, 64, None, 0)], loc=(("/" + d).encode("utf-8"), qs.encode())))
-            if not ver:
-                break
-    reqs = [q for q in reqs]
-    # 1.0 requests without keep-alive end the connection: split into separate exchanges
-    cur = []
-    for q in reqs:
-        cur.append(q)
-        if not q.ka:
-            cases.append(("errors-redirects", cur, None, None))
-            cur = []
-    cur.append(static_req(0, close=True))
-    cases.append(("errors-redirects", cur, None, None))
+    for d, t, qs, ctl in [("dir", "/dir", "", 0), ("dir", "/dir", "a=1&b=%0d%0aSet-Cookie:x", 1), ("d ir", "/d%20ir", "", 0),
+                          ("d\"q<r>", "/d%22q%3Cr%3E", "q", 0), ("dé", "/d%c3%a9", "", 0), ("d__X-Injected: y", "/d%0d%0aX-Injected:%20y", "", 1),
+                          ("d__X-Injected: y", "/d%0D%0aX-Injected:%20y", "z=%0a", 1), ("d%41", "/d%2541", "", 0), ("d;a=b&c", "/d;a=b&c", "", 0),
+                          ("dir", "/./x/../dir", "", 0), ("dir", "//dir", "", 0)]:
+        tt = t + ("?" + qs if qs else "")
+        if ctl and not lenient:
+            cases.append(("ctl-400", [Req(req_bytes("GET", tt), 400, "errpage", ka=0, kind="400-ctl",
+                                          model=[mline(400, "G", 1, 1, 0, 64, None, 0)])], None, None))
+            continue
+        reqs.append(Req(req_bytes("GET", tt, 1), 301, b"", kind="301-dir", model=[mline(301, "G", 1, 1, 1, 64, None, 0)],
+                        loc=(("/" + d).encode("utf-8"), up_esc(qs.encode()))))
+        cases.append(("redirect-1.0", [Req(req_bytes("GET", tt, 0), 301, b"", ver=0, ka=0, kind="301-dir-1.0",
+                                           model=[mline(301, "G", 0, 1, 0, 64, None, 0)], loc=(("/" + d).encode("utf-8"), up_esc(qs.encode())))], None, None))
+    reqs.append(static_req(0, close=True))
+    cases.append(("errors-redirects", reqs, None, None))
     # CGI: streamed / buffered dynamic responses
     stream = variant["stream"]
     for name, (_, status, _, dcl) in CGI.items():
@@ -800,7 +814,7 @@ def run_variant(ctx, bd, variant, rng, results):
     srv = e2e.Server(bd, CONF % variant, modules=("mod_cgi",))
     build_docroot(srv)
     cases = e2e_cases(ctx, variant, rng)
-    vname = "%(backend)s/stream%(stream)d/kareq%(kareq)d" % variant
+    vname = "%(backend)s/stream%(stream)d/kareq%(kareq)d/ctrls%(ctrls)d" % variant
     validators = {}
 
     def one(case):
@@ -850,8 +864,10 @@ def run_e2e(ctx):
     if bd is None:
         ctx.broken.append({"kind": "e2e-build", "names": ["lighttpd"], "log": (err or "")[-3000:]})
         return
-    variants = [dict(backend=b, stream=s, kareq=100) for b in ("writev", "sendfile") for s in (0, 1, 2)]
-    variants.append(dict(backend="sendfile", stream=0, kareq=2))
+    variants = [dict(backend=b, stream=s, kareq=100, ctrls=int((b == "writev") == (s == 1))) for b in ("writev", "sendfile") for s in (0, 1, 2)]
+    variants.append(dict(backend="sendfile", stream=0, kareq=2, ctrls=0))
+    for v in variants:
+        v["parseopts"] = 'server.http-parseopts = ("url-ctrls-reject" => "disable")' if v["ctrls"] else ""
     results = []
     t0 = time.time()
     seeds = [ctx.rng.randrange(1 << 30) for _ in variants]
